@@ -834,6 +834,12 @@ fn build(g: &G) -> Case {
     if t.len() > 2 {
         shuffle(&mut t, g.salt, 33);
     }
+    // a knot at zero: also ask for the zero of the other sign (the same abscissa)
+    if g.salt & 1 == 0 {
+        if let Some(z) = x.iter().find(|v| **v == 0.0) {
+            t.insert(0, -*z);
+        }
+    }
     let fl = FILLS[(g.fl as usize) % FILLS.len()];
     let mut fr = FILLS[(g.fr as usize) % FILLS.len()];
     if fr.to_bits() == fl.to_bits() {
@@ -945,6 +951,12 @@ fn enumerated() -> Vec<Case> {
             for t in &targets {
                 v.push(Case { x: x.clone(), y: y.clone(), t: t.clone(), mode, fill_l: -7.0, fill_r: 9.0, checked });
                 v.push(Case { x: vec![0.0, 1.0], y: vec![0.0, 1.0], t: t.clone(), mode, fill_l: -7.0, fill_r: 9.0, checked });
+            }
+            // a zero knot and a target zero of the other sign are the same abscissa
+            for (xz, tz) in [(0.0f64, -0.0f64), (-0.0, 0.0)] {
+                v.push(Case { x: vec![xz, 1.0, 2.0], y: vec![5.0, 3.0, 2.0], t: vec![tz], mode, fill_l: -7.0, fill_r: 9.0, checked });
+                v.push(Case { x: vec![-2.0, -1.0, xz], y: vec![5.0, 3.0, 2.0], t: vec![tz, -1.5], mode, fill_l: -7.0, fill_r: 9.0, checked });
+                v.push(Case { x: vec![-1.0, xz, 1.0], y: vec![5.0, 3.0, 2.0], t: vec![0.5, tz], mode, fill_l: -7.0, fill_r: 9.0, checked });
             }
         }
         v.push(Case { x: vec![0.0, 2.0, 1.0], y: vec![0.0, 1.0, 2.0], t: vec![0.5], mode, fill_l: 0.0, fill_r: 1.0, checked: true });
